@@ -1292,6 +1292,14 @@ func gridCases(seed uint64) []*Case {
 			return c
 		}).Example(int(seed>>8) + 5000 + i)
 		c.Test, c.Exit, c.Kill = "grid", ek.exit, ek.kill
+		if cmd == "get-plugin-metadata" && outKind == "wrongname" && errKind == "empty" {
+			// the executable is a link to a file of another name and the reply carries that name (every
+			// run has these cases, whatever the seed)
+			c.ExeLink = c.Name + "x"
+			m := objectOf(c.Reply)
+			m["name"] = json.RawMessage(mustJSON(c.ExeLink))
+			c.Stdout = mustJSON(m)
+		}
 		out = append(out, c)
 	}
 	for _, cmd := range commands {
